@@ -188,6 +188,45 @@ static void runSeq(vio::Cursor & c, vio::Out & o) {
                 for (size_t s = 0; s < x.S; ++s) for (size_t a = 0; a < x.A; ++a) for (size_t ob = 0; ob < O; ++ob) raw->ob[s][a][ob] = flat[k++];
                 act = [&obj, raw] { auto tmp = std::make_unique<M>(*raw); obj = std::move(tmp); };
             } else throw std::logic_error("harness: pctorc on an MDP class");
+        } else if (op == "ctorlib" || op == "pctorlib") {
+            // converting constructor from a LIBRARY model built through NO_CHECK (so that its tables and
+            // discount are arbitrary): source kind d = dense classes, s = sparse classes.
+            isCtor = true;
+            const std::string sk = c.next();
+            // same representation = implicit copy constructor, not a conversion: not a case of this harness
+            if ((sk == "s") == sparse) throw std::logic_error("harness: ctorlib source must be of the other representation");
+            size_t O = 0; auto obflat = std::make_shared<std::vector<double>>();
+            if (op == "pctorlib") { O = c.nextSize(); *obflat = c.nextDoubles(); }
+            const size_t S = c.nextSize(), A = c.nextSize(); const double d = c.nextDouble();
+            auto T = std::make_shared<T3>(readT3(c, A, S, S));
+            auto R = std::make_shared<T3>(readT3(c, 1, S, A));
+            if (op == "pctorlib" && obflat->size() != A * S * O) throw std::logic_error("harness: table size mismatch");
+            if constexpr (Traits<M>::pomdp) {
+                if (op != "pctorlib") throw std::logic_error("harness: ctorlib on a POMDP class");
+                act = [&obj, sk, O, obflat, S, A, d, T, R] {
+                    T3 ob(A, std::vector<std::vector<double>>(S, std::vector<double>(O)));
+                    size_t k = 0;
+                    for (size_t a = 0; a < A; ++a) for (size_t s1 = 0; s1 < S; ++s1) for (size_t x = 0; x < O; ++x) ob[a][s1][x] = (*obflat)[k++];
+                    if (sk == "d") {
+                        POMDP::Model<MDP::Model> src(NO_CHECK, O, toDense3(ob, A, S, O), NO_CHECK, S, A, toDense3(*T, A, S, S), Matrix2D(toDense3(*R, 1, S, A)[0]), d);
+                        auto tmp = std::make_unique<M>(src); obj = std::move(tmp);
+                    } else {
+                        POMDP::SparseModel<MDP::SparseModel> src(NO_CHECK, O, toSparse3(ob, A, S, O), NO_CHECK, S, A, toSparse3(*T, A, S, S), SparseMatrix2D(toSparse3(*R, 1, S, A)[0]), d);
+                        auto tmp = std::make_unique<M>(src); obj = std::move(tmp);
+                    }
+                };
+            } else {
+                if (op != "ctorlib") throw std::logic_error("harness: pctorlib on an MDP class");
+                act = [&obj, sk, S, A, d, T, R] {
+                    if (sk == "d") {
+                        MDP::Model src(NO_CHECK, S, A, toDense3(*T, A, S, S), Matrix2D(toDense3(*R, 1, S, A)[0]), d);
+                        auto tmp = std::make_unique<M>(src); obj = std::move(tmp);
+                    } else {
+                        MDP::SparseModel src(NO_CHECK, S, A, toSparse3(*T, A, S, S), SparseMatrix2D(toSparse3(*R, 1, S, A)[0]), d);
+                        auto tmp = std::make_unique<M>(src); obj = std::move(tmp);
+                    }
+                };
+            }
         } else if (op == "conv") {
             // round trip through the other representation: M(Other(*obj)), both via the IsModel template constructors
             if constexpr (Traits<M>::pomdp) throw std::logic_error("harness: conv on a POMDP class");
